@@ -90,7 +90,9 @@ class PathBasedRoutingProblem(RoutingProblem):
         # visit each node at most once (besides depot)
         # satisfy capacity constraints
         # and time window constraints
-        time = 0
+        # (the vehicle leaves when the depot's window opens, as the other
+        # formulations and the arc timing filter assume)
+        time = self.nodes[self.depot_index].get_window()[0]
         loading = self.initial_loading
         for i in range(len(route_indices) - 1):
             # have we already visited this node?
@@ -184,7 +186,7 @@ class PathBasedRoutingProblem(RoutingProblem):
         # all routes start at depot
         currNode = self.depot_index
         r = [currNode]
-        time = 0
+        time = self.nodes[self.depot_index].get_window()[0]
         load = self.initial_loading
         maxLegs = 2 + len(self.nodes)
         # Build up a route
